@@ -7,17 +7,17 @@ EX = "exploration"
 CHECKS = {
  "C01": dict(cat=MC, engine="E1",
    technique="explicit-state exploration of the real canister (exhaustive DFS over block-arrival histories with transaction bodies, duplicate detection on the complete logical state) with a brute-force ledger replay as oracle",
-   text="Every state reachable by <= n blocks (n=4 quick, 5 thorough) over a menu of 8 transaction bodies (<= 2-3 non-default per history), all tree shapes and arrival orders, thresholds 1-3, three networks: every book address (P2PKH, P2SH, P2WPKH, P2WSH, P2TR, a colliding P2WPKH/P2WSH prefix pair) is queried with all pages followed (page sizes 1000 and 1/2) and compared, as a set with values and heights, with the ledger replayed from genesis to the named tip. Plus the real 1000-per-page limit on 999..2001 outputs.",
+   text="Every state reachable by <= n blocks (n=4 quick, 5 thorough) over a menu of 8 transaction bodies (<= 2-3 non-default per history), all tree shapes and arrival orders, thresholds 1-3, three networks: every book address (P2PKH, P2SH, P2WPKH, P2WSH, P2TR, a colliding P2WPKH/P2WSH prefix pair) is queried with all pages followed (page sizes 1000 and 1/2) and compared, as a set with values and heights, with the ledger replayed from genesis to the named tip. Plus the real 1000-per-page limit on 999..2001 outputs, and a tall-chain family (stable + unstable stretch of hundreds of blocks).",
    note="domain: transaction-valid blocks; address<->script mapping and hashing shared with rust-bitcoin; order inside one height not compared",
    ref="DESIGN.md §6 C01"),
  "C02": dict(cat=MC, engine="E1",
    technique="explicit-state exploration of the real canister: exhaustive DFS over block-arrival histories (all tree shapes x arrival orders x difficulty assignments x thresholds) with a brute-force reference chain selection as oracle in every state",
-   text="Every state reachable by <= n block deliveries (n=5 quick, 6-7 thorough; difficulties {1,2,3}; thresholds 1-3; regtest through full validation, mainnet/testnet through push) is visited on the real code and get_blockchain_info / unfiltered get_utxos / get_balance / get_block_headers are compared with the heaviest chain recomputed by brute force (all leaf paths, (sum difficulty, length), arrival tie-break). Bounded exhaustive: nothing is claimed beyond the bound.",
+   text="Every state reachable by <= n block deliveries (n=5-6 quick, 6-7 thorough; difficulty sets {1,2,3}, {1,2,5}, {1,4}; thresholds 1-3; regtest through full validation, mainnet/testnet through push) is visited on the real code and get_blockchain_info / unfiltered get_utxos / get_balance / get_block_headers are compared with the heaviest chain recomputed by brute force (all leaf paths, (sum difficulty, length), arrival tie-break). A fee-carrying part (lazy and eager fee mode, forks with different fees, reorgs) compares get_current_fee_percentiles with the reference percentiles of the heaviest chain. Bounded exhaustive: nothing is claimed beyond the bound.",
    note="rust-bitcoin hashing/serialisation shared with the implementation; mock difficulty via feature mock_difficulty; ingestion unsliced in this check (sliced states belong to C07/C08)",
    ref="DESIGN.md §6 C02"),
  "C03": dict(cat=MC, engine="E1",
    technique="explicit-state exploration of the real canister with history monitors on every transition (six finality clauses) plus an exhaustively enumerated depth-escape family",
-   text="All TREE histories (<= 4-5 quick, 5-7 thorough blocks; difficulties 1-3; thresholds 1-3 incl. set_config changes mid-history; three networks) with monitors on every transition: stable height monotone, recorded stable blocks immutable and on the anchor chain, every anchor advance goes to the child that qualifies under the difficulty rule (recomputed from scratch), no qualifying child is left after an ingestion opportunity, the new anchor is the second block of the served chain, blocks disappear only with the advance and exactly the losers. Depth escape: heavy anchor, main branch grown to 520 blocks against forks of 0-5 blocks, bound recomputed in exact rational arithmetic.",
+   text="All TREE histories (<= 4-5 quick, 5-7 thorough blocks; difficulties 1-3 and {1,3} nested forks whose longer branch is lighter; sliced ingestion; thresholds 1-3 incl. set_config changes mid-history; three networks) with monitors on every transition: stable height monotone, recorded stable blocks immutable and on the anchor chain, every anchor advance goes to the child that qualifies under the difficulty rule (recomputed from scratch), no qualifying child is left after an ingestion opportunity, the new anchor is the second block of the served chain, blocks disappear only with the advance and exactly the losers. Depth escape: heavy anchor, main branch grown to 520 blocks against forks of 0-5 blocks, bound recomputed in exact rational arithmetic.",
    note="escape judged only where runner-up is unambiguous; wide-and-deep trees only via the family",
    ref="DESIGN.md §6 C03"),
  "C04": dict(cat=MC, engine="E1",
@@ -26,7 +26,7 @@ CHECKS = {
    note="c=0 belongs to C01/C02", ref="DESIGN.md §6 C04"),
  "C05": dict(cat=MC, engine="E1",
    technique="explicit-state exploration of the real canister incl. states in the middle of sliced ingestion; differential oracle balance vs sum of paged UTXOs, error classes, query vs update variants",
-   text="In every explored state (forks, paused ingestion with budgets 1/2), for every address and c in {none, 0..L+1}: get_balance == sum over all pages of get_utxos; ~45 malformed / foreign-network address strings must be refused by both with the same error class; update variants return what query variants return.",
+   text="In every explored state (forks, the same transaction on two forks with a later spend, paused ingestion with budgets 1/2), for every address and c in {none, 0..L+1}: get_balance == sum over all pages of get_utxos; ~45 malformed / foreign-network address strings must be refused by both with the same error class; update variants return what query variants return.",
    note="differential: needs no reference value", ref="DESIGN.md §6 C05"),
  "C07": dict(cat=MC, engine="E1",
    technique="explicit-state exploration of the real canister with sliced ingestion and upgrades; all (start,end) pairs per state against the reference chain; long-chain boundary family",
@@ -38,19 +38,19 @@ CHECKS = {
    note="budgets are counted in slicing call sites; statistics masked in fingerprints", ref="DESIGN.md §6 C08"),
  "C06": dict(cat=MC, engine="E2",
    technique="explicit-state exploration of pager/environment interleavings on the real canister (all placements of <= k environment events between page requests), plus exhaustive page-blob and real-limit families",
-   text="From every LEDGER state a pager (page size 1/2, filters none / c=1 / c=2) follows next_page while between any two page requests the environment may deliver a block on any live block (tip growth, competing fork, reorg), ingest (unsliced or one step) or upgrade: every page must name the first tip, the concatenation must equal the ledger at that tip, and once the tip left the tree the answer must be UnknownTipBlockHash. ~400 crafted page blobs x 4 addresses never trap; 2001-output address with the real limit.",
+   text="From every LEDGER state a pager (page size 1/2, filters none / c=1 / c=2) follows next_page while between any two page requests the environment may deliver a block on any live block (tip growth, competing fork, reorg), ingest (unsliced or one step) or upgrade: every page must name the first tip, the concatenation must equal the ledger at that tip, and once the tip left the tree the answer must be UnknownTipBlockHash. ~400 crafted page blobs x 4 addresses never trap; 2001-output address with the real limit; zero-value outputs at page boundaries; one transaction with up to 1300 outputs to one address whose block stabilises between pages.",
    note="page size 1/2 through hook H3", ref="DESIGN.md §6 C06"),
  "C09": dict(cat=MC, engine="E1",
    technique="explicit-state exploration with an upgrade at every message boundary (incl. paused ingestion and, via the schedule explorer of C13, every fetch-protocol phase); complete probe set and complete logical state compared across the upgrade; differential continuation against the run without the upgrade",
-   text="One upgrade (no argument / empty / new threshold / lazy fees) at every boundary of LEDGER histories with sliced ingestion: all probe answers and the complete logical state (syncing flags, per-block metrics, overridden config masked) must be identical before/after; for up to k further events the answers must equal those of the run where the upgrade is replaced by its plain set_config. Fetch-protocol phases (request parked, partial pages stored, complete response stored) are covered by the C13 exploration, which applies the same probe comparison at every Upgrade event.",
+   text="One upgrade (no argument / empty / new threshold / lazy fees) at every boundary of LEDGER histories with sliced ingestion: all probe answers and the complete logical state (syncing flags, per-block metrics, overridden config masked) must be identical before/after; for up to k further events the answers must equal those of the run where the upgrade is replaced by its plain set_config. A part with every configuration field away from its default (syncing disabled, api access disabled, lazy fees, sync gate, non-default fees, watchdog and burn settings) checks that the whole configuration survives. Fetch-protocol phases (request parked, partial pages stored, complete response stored) are covered by the C13 exploration, which applies the same probe comparison at every Upgrade event.",
    note="native vector memory stands in for stable memory", ref="DESIGN.md §6 C09"),
  "C10": dict(cat=MC, engine="E1",
    technique="explicit-state exploration of base tree states x exhaustive enumeration of get_successors replies (items x announced headers) fed through the real heartbeat; atomicity by state comparison with the prefix-only reply",
-   text="In every TREE state (<= 3-4 blocks) every reply of <= 2-3 items over 21 item kinds and every announced-header list of <= 2-3 entries over 9 kinds: admitted blocks = longest admissible prefix, exactly one error counter +1 on a reject, complete state equal to the state after the prefix-only reply, heartbeat never traps, retained headers sound and complete; direct-call and heartbeat channels give equal states.",
+   text="In every TREE state (<= 3-4 blocks, with and without pending announced headers) every reply of <= 2-3 items over 25 item kinds (incl. valid boundary timestamps, blocks of previously announced headers) and every announced-header list of <= 2-3 entries over 9 kinds: admitted blocks = longest admissible prefix, exactly one error counter +1 on a reject, complete state equal to the state after the prefix-only reply, heartbeat never traps, retained headers sound and complete; direct-call and heartbeat channels give equal states.",
    note="regtest (mined) blocks only", ref="DESIGN.md §6 C10"),
  "C11": dict(cat=EX, engine="E3",
    technique="bounded-exhaustive enumeration of header-chain configurations against an independent re-implementation of Core's difficulty and timestamp rules",
-   text="Complete product of network x candidate position around period boundaries x bits patterns of the last four headers x gaps around 20 minutes x period timespans around the clamps x BIP94 first-bits variants, compared through wrappers of the private rule functions; timestamp rule on 6 patterns x chain lengths 1-14; end-to-end acceptance on regtest with mined/unmined headers.",
+   text="Complete product of network x candidate position around period boundaries x bits patterns of the last four headers x gaps around 20 minutes x period timespans around the clamps x BIP94 first-bits variants, compared through wrappers of the private rule functions; timestamp rule on 6 patterns x chain lengths 1-14; end-to-end acceptance on regtest with mined/unmined headers; the canister's HeaderStore adaptor (height, header per height across stable store / unstable chain / pending announced headers, by-hash lookup, initial hash) is compared with the reference in every TREE+Hdr state through hook H9.",
    note="accept side on mainnet/testnet unreachable without real proof of work", ref="DESIGN.md §6 C11"),
  "C12": dict(cat=EX, engine="E3",
    technique="bounded-exhaustive enumeration of block mutations against an independent merkle routine and the four clauses of the statement",
@@ -62,7 +62,7 @@ CHECKS = {
    note="source honours its protocol; upgrades leak outstanding heartbeats as the IC does", ref="DESIGN.md §6 C13"),
  "C14": dict(cat=MC, engine="E1",
    technique="explicit-state exploration of tree histories with announced-header events x flag combinations; every endpoint x requested network called in every state",
-   text="TREE histories with chains of 1-4 announced headers on any live block (overtaken by arrivals, left on discarded forks, reached by the stable height) x the 4 flag combinations: 7 data endpoints x 3 networks must refuse iff access off, network mismatch, or (sync flag and highest connected announced header > best + 2; send_transaction exempt); exempt endpoints always answer.",
+   text="TREE histories with chains of 1-4 announced headers on any live block (overtaken by arrivals, left on discarded forks, reached by the stable height) x the 4 flag combinations: 7 data endpoints x 3 networks must refuse iff access off, network mismatch, or (sync flag and highest connected announced header > best + 2; send_transaction exempt); exempt endpoints always answer. A mixed-difficulty part separates 'heaviest chain' from 'longest branch'.",
    note="headers of discarded forks are 'either' (C20 lets them be dropped)", ref="DESIGN.md §6 C14"),
  "C15": dict(cat=MC, engine="E1",
    technique="explicit-state exploration of fee-carrying histories through the real heartbeat against a stateful reference of the caching rule; exhaustive enumeration of the percentile routine; window boundary family",
@@ -78,11 +78,11 @@ CHECKS = {
    note="inter-canister calls and timers not executed natively", ref="DESIGN.md §6 C17"),
  "C18": dict(cat=EX, engine="E3",
    technique="bounded-exhaustive enumeration of HTTP responses (statuses x header sets x generated bodies incl. every prefix and UTF-8 corruption) through all transform functions",
-   text="All 10 exported transforms + the testnet endpoint: never trap, strip headers, keep status, body empty or canonical; extracted value equals the one known from the generating AST; identical bytes across headers, whitespace, member order, extra members.",
+   text="All 10 exported transforms + the testnet endpoint: never trap, strip headers, keep status, body empty or canonical; extracted value equals the one known from the generating AST; identical bytes across headers, whitespace, member order, extra members; long bodies (every length to 700/1300 bytes of 1-4-byte characters) alone and inside valid documents.",
    note="documents rendered from the harness's AST", ref="DESIGN.md §6 C18"),
  "C19": dict(cat=EX, engine="E3",
    technique="bounded-exhaustive enumeration of payload mutations against an independent strict transaction parser and exact round trip",
-   text="12 base transactions x every truncation, 1-byte extension, bit flip, marker/flag edge case x access flag x networks through the real async endpoint: success, counting and unchanged forwarding iff well-formed and permitted.",
+   text="12 base transactions x every truncation, 1-byte extension, bit flip, marker/flag edge case x access flag x networks through the real async endpoint: success, counting and unchanged forwarding iff well-formed and permitted; repeated on a canister that is behind its announced headers (send_transaction is exempt from the sync gate).",
    note="payloads where the two references disagree are undecided", ref="DESIGN.md §6 C19"),
  "C20": dict(cat=MC, engine="E1",
    technique="explicit-state exploration with a structural oracle over the serialised unstable-block bookkeeping and the block cache in every state",
